@@ -380,6 +380,18 @@ def gen_script(rng, spot=False, step=0.125, rich=True, tight=False, force=None):
                 t = dsum(r[0] for r in s[side]['rows'])
                 s[side]['sl'] = [(t, -sg * off(6, 12))]
                 s[side]['tp'] = [(t / 2, sg * off(6, 9)), (t / 2, sg * off(10, 14))] if rng.random() < 0.5 else [(t, sg * off(6, 12))]
+        if rich and kind in ('limit', 'stop', 'ladder') and rng.random() < 0.3:
+            # an exit declared with a RESTING entry that lies on the WRONG side of the entry price once the entry fills
+            # (a stop-loss between the price and a LIMIT entry, a take-profit between the price and a STOP entry): the
+            # strategy layer replaces it by a MARKET order when the position opens — and the fill's hook then declares
+            # the exit anew (the replacement must go, like any other order of the superseded declaration)
+            for side in ('long', 'short'):
+                if side in s:
+                    sg = 1 if side == 'long' else -1
+                    t = dsum(r[0] for r in s[side]['rows'])
+                    first = s[side]['rows'][0][1]
+                    s[side]['sl' if kind != 'stop' else 'tp'] = [(t, first + (sg if kind != 'stop' else -sg) * step)]
+            s['on_open'] = {('sl' if kind != 'stop' else 'tp'): [(0, off(5, 12))]}
     elif style == 'on_open':
         s['on_open'] = {'sl': [(0, off(5, 12))], 'tp': [(0, off(5, 12))]}
         if rich and rng.random() < 0.2:
